@@ -2173,7 +2173,7 @@ def process_include_scope(
     if phil_path is None:
         result = source_scope
     else:
-        result = source_scope.get(path=phil_path)
+        result = source_scope.get(path=phil_path, with_substitution=False)
         if len(result.objects) == 0:
             raise RuntimeError(
                 'include scope: path "%s" not found in phil scope object "%s"'
